@@ -4,6 +4,7 @@ package exec
 
 import (
 	"fmt"
+	"go/token"
 	"go/types"
 )
 
@@ -49,6 +50,16 @@ func init() {
 			return nil
 		},
 		"vndGhostLoad": func(fr *frame, a []value) value { return *(a[0].(*value)) },
+		// a ghost section: the closure runs without scheduling points and is
+		// invisible to the race check (harness ledgers updated "at the instant"
+		// of the call they describe)
+		"vndGhost": func(fr *frame, a []value) value {
+			m := fr.i
+			m.ghostDepth++
+			defer func() { m.ghostDepth-- }()
+			call(m, fr, token.NoPos, a[0], nil)
+			return nil
+		},
 		"vndParam": func(fr *frame, a []value) value {
 			if v, ok := fr.i.limits.Params[a[0].(string)]; ok {
 				return v
